@@ -19,6 +19,16 @@
 (*      A refused write is accepted like any other: the bounds are what is *)
 (*      checked, on the sizes found afterwards (a file whose size changed  *)
 (*      took this write, whatever the logger answered)                     *)
+(*  {"e":"killed","n":bytes,"files":[..]}  the run was killed INSIDE a roll *)
+(*      (during a write of n bytes, at a removal after the rename) and     *)
+(*      started again; files = what the new run finds.  One file too many  *)
+(*      per such kill is within C19's quantifier ("restarts that find the  *)
+(*      files left by earlier runs") ONLY until the next roll completes:   *)
+(*      T_LogCount allows maxCount + (kills since the last completed roll) *)
+(*      and T_LogCountAfterRoll demands <= maxCount after every completed  *)
+(*      roll, whatever the directory looked like before it.                *)
+(*      A roll step = a write after which the current file is another file *)
+(*      than the current file before it.                                   *)
 (*  {"e":"fault","kind":"pin"|"unpin"}   the environment makes the rename  *)
 (*      of the current log file fail from now on / no longer               *)
 (*  {"e":"ev","kind":"push"|"tick"|"stop"|"remove","ev":n}   event dir;    *)
@@ -54,6 +64,16 @@ LwOf(fs) == IF \E i \in DOMAIN fs : IsCur(fs[i]) THEN fs[CHOOSE i \in DOMAIN fs 
 
 \* project the observed files onto the variables of DiskBounds
 Project(fs) == arch' = ArchOf(fs) /\ cur' = CurOf(fs) /\ lw' = LwOf(fs)
+\* id of the current file, 0 = there is none
+CurId(fs) == IF \E i \in DOMAIN fs : IsCur(fs[i]) THEN fs[CHOOSE i \in DOMAIN fs : IsCur(fs[i])].id ELSE 0
+\* the files observed after a step, with the size of the last write that changed each of them
+Carry(new, n) ==
+  LET Same(k, j) == files[j].id = new[k].id /\ files[j].size = new[k].size
+  IN [k \in DOMAIN new |->
+        [id |-> new[k].id, size |-> new[k].size, cur |-> new[k].cur,
+         lw |-> IF \E j \in DOMAIN files : Same(k, j)
+                  THEN files[CHOOSE j \in DOMAIN files : Same(k, j)].lw
+                  ELSE n]]
 
 Reset ==
   /\ l <= Len(Rec) /\ Rec[l].e = "reset"
@@ -69,16 +89,23 @@ Reset ==
 \* one write of n bytes (accepted or refused by the logger): a file that is new or whose size changed took this write
 Write ==
   /\ l <= Len(Rec) /\ Rec[l].e = "write"
-  /\ LET new == Rec[l].files
-         n == Rec[l].n
-         Same(k, j) == files[j].id = new[k].id /\ files[j].size = new[k].size
-     IN files' = [k \in DOMAIN new |->
-                    [id |-> new[k].id, size |-> new[k].size, cur |-> new[k].cur,
-                     lw |-> IF \E j \in DOMAIN files : Same(k, j)
-                              THEN files[CHOOSE j \in DOMAIN files : Same(k, j)].lw
-                              ELSE n]]
+  /\ files' = Carry(Rec[l].files, Rec[l].n)
   /\ Project(files')
-  /\ UNCHANGED <<conf, rolled, logLegal, debt, rollFails, evVars, dumpVars>>
+  /\ LET roll == CurId(files) # 0 /\ CurId(files') # 0 /\ CurId(files') # CurId(files)    \* a completed roll
+     IN /\ rolled' = (rolled \/ roll)
+        /\ debt' = IF roll THEN 0 ELSE debt
+  /\ UNCHANGED <<conf, logLegal, rollFails, evVars, dumpVars>>
+  /\ l' = l + 1
+
+\* the run was killed inside a roll and restarted: the directory is found anew (no roll completed since); one more
+\* kill in the window since the last completed roll
+Killed ==
+  /\ l <= Len(Rec) /\ Rec[l].e = "killed"
+  /\ files' = Carry(Rec[l].files, Rec[l].n)
+  /\ Project(files')
+  /\ rolled' = FALSE /\ debt' = debt + 1
+  /\ evRun' = TRUE
+  /\ UNCHANGED <<conf, logLegal, rollFails, evFiles, evQueue, evLegal, dumpVars>>
   /\ l' = l + 1
 
 \* the environment switches the rename fault on / off: no file changes
@@ -107,12 +134,16 @@ TRestart ==
   /\ UNCHANGED <<logVars, evFiles, evQueue, evLegal, dumpVars, conf, files>>
   /\ l' = l + 1
 
-TNext == Reset \/ Write \/ Fault \/ Ev \/ Dump \/ TRestart
+TNext == Reset \/ Write \/ Killed \/ Fault \/ Ev \/ Dump \/ TRestart
 TSpec == TInit /\ [][TNext]_tvars
 
 -----------------------------------------------------------------------------
 \* C19 on the observed behaviour, with the real settings of the run
-T_LogCount == logLegal => P_LogCount(arch, cur, conf.maxCount)
+\* debt = kills inside a roll since the last completed roll (0 in histories without such kills)
+T_LogCount == logLegal => P_LogCount(arch, cur, conf.maxCount + debt)
+\* whatever a run found (left by earlier runs, killed inside a roll or not): once a roll has completed the count is
+\* within the configured count, and stays there
+T_LogCountAfterRoll == rolled => P_LogCount(arch, cur, conf.maxCount)
 T_LogSize == \A k \in DOMAIN files : P_LogSize(files[k].size, files[k].lw, conf.limit)
 T_EvCount == evLegal => P_EvCount(evFiles, conf.cap)
 T_DumpCount == (dLegal \/ dWritten) => P_DumpCount(dumps, conf.maxDumps)
